@@ -561,6 +561,34 @@ NS_KEYS = [('SystemCreationClassName', 'CIM_ComputerSystem'),
            ('CreationClassName', 'CIM_Namespace')]
 
 
+# what the start state may hold besides the namespaces every one of which got
+# its CIM_Namespace instance when the namespace provider was installed
+NSREG_KINDS = [
+    # namespace created through the provider (CreateInstance of
+    # CIM_Namespace), then removed with remove_namespace(): its CIM_Namespace
+    # instance stays in the Interop namespace
+    'orphan-removed', 'orphan-removed',
+    # CIM_Namespace instance stored with add_cimobjects(), no such namespace
+    'orphan-added',
+    # empty namespace created through the provider (namespace + instance)
+    'registered',
+    # namespace added with add_namespace(): no CIM_Namespace instance
+    'unregistered',
+    # namespace created through the provider plus a second CIM_Namespace
+    # instance of the same Name (other SystemName) stored with
+    # add_cimobjects()
+    'twice',
+]
+
+
+def ns_inst_recipe(name, **other):
+    "instance recipe of CIM_Namespace with Name = name"
+    props = [(n, 'string', False, other.get(n, v)) for n, v in NS_KEYS]
+    props.append(('Name', 'string', False, name))
+    return {'cls': 'CIM_Namespace', 'props': props,
+            'keys': [n for n, v in NS_KEYS] + ['Name']}
+
+
 def _base_is_sub(cn, anc):
     while cn:
         if cn == anc:
@@ -574,6 +602,9 @@ def g_init(draw):
     start state recipe:
       {'nss': [(ns, level, [(cls, [instance ids])...])],
        'dns': default namespace, 'interop': None|name, 'nsprov': bool,
+       'nsreg': [(kind, namespace name)...] namespaces / CIM_Namespace
+                instances set up after the namespace provider was
+                installed (kinds: see NSREG_KINDS),
        'links': [(assoc class, creation ns idx, [(ns idx, cls, id)...],
                   None (CreateInstance: copies in all referenced
                   namespaces) | [ns idx...] (add_cimobjects into these))]}
@@ -638,8 +669,12 @@ def g_init(draw):
                 copies = [k for k in allns if chance(draw, 50)] or \
                     [allns[0]]
         links.append((ac, pick(draw, involved), ends, copies))
+    nsreg = []
+    if nsprov:
+        for k in range(pick(draw, [0, 0, 1, 1, 2, 2, 3])):
+            nsreg.append((pick(draw, NSREG_KINDS), 'root/o%d' % k))
     return {'nss': nss, 'dns': dns, 'interop': interop, 'nsprov': nsprov,
-            'links': links}
+            'links': links, 'nsreg': nsreg}
 
 
 def base_inst(cn, id_):
@@ -699,6 +734,26 @@ def materialize(init):
         if init['nsprov']:
             conn.CreateClass(class_obj(NS_CLASS), namespace=io)
             conn.install_namespace_provider(io)
+            for kind, name in init.get('nsreg', []):
+                i = ns_inst_recipe(name)
+                if kind in ('orphan-removed', 'registered', 'twice'):
+                    conn.CreateInstance(inst_obj(i), namespace=io)
+                if kind == 'orphan-removed':
+                    conn.remove_namespace(name)
+                elif kind == 'orphan-added':
+                    conn.add_cimobjects(
+                        inst_obj(i, path=inst_path_recipe(i, None)),
+                        namespace=io)
+                elif kind == 'unregistered':
+                    conn.add_namespace(name)
+                elif kind == 'twice':
+                    # not through the provider: whether the provider accepts
+                    # a second instance for an existing namespace is not
+                    # the business of the start state
+                    i = ns_inst_recipe(name, SystemName='OtherSystem')
+                    conn.add_cimobjects(
+                        inst_obj(i, path=inst_path_recipe(i, None)),
+                        namespace=io)
     created = set()
     for link in init['links']:
         i = link_inst(init, link)
@@ -796,6 +851,40 @@ class View:
             for cn in self.classes[ns]:
                 if reg.get_registered_provider(ns, 'instance-write', cn):
                     self.provider_classes[(ns.lower(), cn.lower())] = True
+
+        # CIM_Namespace instances of the Interop namespace versus the
+        # namespaces that exist
+        self.nsprov = bool(self.interop and self.provider_classes.get(
+            (self.interop.lower(), 'cim_namespace')))
+        self.ns_insts = []
+        if self.interop:
+            for p in self.paths.get(self.interop, []):
+                name = p.keybindings.get('Name')
+                if p.classname.lower() == 'cim_namespace' and \
+                        isinstance(name, str):
+                    self.ns_insts.append((name, p))
+        low = [n.lower() for n in self.nss]
+        self.orphans = [(n, p) for n, p in self.ns_insts
+                        if n.strip('/').lower() not in low]
+        named = set(n.strip('/').lower() for n, p in self.ns_insts)
+        self.unregistered = [n for n in self.nss if n.lower() not in named]
+
+    def ns_relation(self, name):
+        """
+        how a namespace name relates to the repository: does the namespace
+        exist, does a CIM_Namespace instance with that Name exist (both
+        compared case-insensitively)
+        """
+        n = name.strip('/').lower()
+        has_ns = n in [x.lower() for x in self.nss]
+        has_inst = any(x.strip('/').lower() == n for x, p in self.ns_insts)
+        return {(True, True): 'namespace-and-instance',
+                (True, False): 'namespace-without-instance',
+                (False, True): 'instance-without-namespace',
+                (False, False): 'neither'}[(has_ns, has_inst)]
+
+    def is_empty_ns(self, ns):
+        return not (self.classes[ns] or self.paths[ns] or self.quals[ns])
 
     def empty(self):
         return not any(self.classes[ns] or self.paths[ns] or self.quals[ns]
